@@ -68,6 +68,12 @@ func lastComponent(c *core.Ctx, e ast.Expr, sep string) ast.Expr {
 		return ok && tv.Value != nil && tv.Value.ExactString() == fmt.Sprintf("%q", sep)
 	}
 	splitOf := func(x ast.Expr) ast.Expr {
+		// the split result may be held in a local defined once
+		if id, isId := ast.Unparen(x).(*ast.Ident); isId {
+			if defs := core.LiveDefs(c.DefsOf(c.Info.ObjectOf(id))); len(defs) == 1 && defs[0].N == 1 && defs[0].Rhs != nil {
+				x = defs[0].Rhs
+			}
+		}
 		call, ok := ast.Unparen(x).(*ast.CallExpr)
 		if !ok || len(call.Args) != 2 || !isSep(call.Args[1]) {
 			return nil
